@@ -35,6 +35,11 @@ func C02(c *run.Ctx) {
 			if gi%4 == 3 {
 				cfg.RefreshTokenLifespan = -1 // refresh tokens never expire: must not touch the code's lifetime
 			}
+			if gi%5 == 2 {
+				// the integrator keeps one more form value with stored requests ("a whitelist of form values that are required by
+				// the token endpoint"): the code stays bound to its redirect_uri all the same
+				cfg.SanitationWhiteList = []string{"tenant"}
+			}
 		})
 		// a second public client for the public/public pair
 		w.AddClient(world.ClientSpec{ID: "pub-e", Public: true, RedirectURIs: []string{"https://app-e.example/cb"},
